@@ -88,7 +88,7 @@ func init() {
 			if ctor != "unsafe" {
 				prods = g.Range(1, 3)
 			}
-			sc.Sources = []SrcSpec{{Mode: "async", Ctor: ctor, Producers: prods, TermFirst: prods > 1 && g.Bool(0.6), Script: genScript(g, 10, 3, "CE", false)}}
+			sc.Sources = []SrcSpec{{Mode: "async", Ctor: ctor, CtorAPI: g.PickInt(0, 0, 1, 2), Producers: prods, TermFirst: prods > 1 && g.Bool(0.6), Script: genScript(g, 10, 3, "CE", false)}}
 			ns := g.PickInt(0, 0, 1, 2)
 			for i := 0; i < ns; i++ {
 				sc.Stages = append(sc.Stages, StageSpec{Op: g.Pick("Map", "Tap", "Filter", "Scan", "StartWith", "TapOnFinalize", "TakeLast", "DefaultIfEmpty", "MaterializeDematerialize"), P: []int{1}})
